@@ -227,28 +227,44 @@ def check(run, F, tier):
     disp = [f for f in F.fns.values() if f.get("name") == "dispatch_send" and f.get("impl_self") == "T"]
     if len(disp) != 1:
         raise FactError("blanket dispatch_send anchor: %d candidates" % len(disp))
-    resd = conn.paths(F, disp[0]["path"])
-    sel = {}
-    for p in resd["paths"]:
-        calls = [e for e in p.effects if e[0] == "call" and "SendableHelper::send_" in e[1]]
-        if not calls:
-            continue
-        meth = calls[0][1].split("::")[-1]
-        true_consts = set()
-        for k, c in p.cons.items():
-            if k[0] == "const" and c == ("eq", 1):
-                m = re.search(r"::(IS_\w+)", k[1])
-                if m:
-                    true_consts.add(m.group(1))
-        sel.setdefault(meth, set()).add(frozenset(true_consts))
+    # evaluated, not matched: the blanket dispatch_send is explored once per packet type with `T` bound to that type, so that
+    # the PacketKind constants have the values the type gives them (and an `of::<T>()` helper, a table, or an if-chain over
+    # them all reduce to the same thing); exactly one SendableHelper method may be reached, the one named by kind and version
+    dpath = disp[0]["path"]
+    tname = [g for g in (disp[0].get("generics") or []) if g not in ("Role", "PacketIdType")]
+    dmod = dpath.lstrip("<").split(" as ")[-1].rsplit("::", 2)[0] if " as " in dpath else "mqtt::connection::sendable"
+    inl_d = lambda ex, callee, info: callee.get("kind") == "Closure" or (callee.get("kind") in ("Fn", "AssocFn") and not callee.get("pub")
+                                                                         and callee["path"].lstrip("<").startswith("mqtt::connection::sendable")
+                                                                         and len(callee["blocks"]) <= 200)
     for v in variants:
         ver, kind = split_variant(v)
         meth = "send_%s_%s" % (kind, ver)
-        want = frozenset(["IS_" + kind.upper(), "IS_" + ver.upper()])
-        if sel.get(meth) == {want}:
-            r2c.ok(meth, sorted(want))
+        ty = payload[v]
+        if len(tname) != 1:
+            r2c.violation(meth, "dispatch_send: type parameter of the blanket impl not identified (%s)" % (disp[0].get("generics"),))
+            continue
+        exd = explore.Explorer(F, inline_pred=inl_d)
+        reached = set()
+        mism = False
+        try:
+            for p in exd.run(dpath, tsub={tname[0]: ty}):
+                if p.kind not in ("return", "diverge", "panic"):
+                    continue
+                calls = [e[1] for e in p.effects if e[0] == "call" and re.search(r"::send_\w+_v(3_1_1|5_0)$", e[1])]
+                if calls:
+                    reached.add(calls[0].split("::")[-1])
+                elif p.kind == "return" and any("VersionMismatch" in repr(x) for x in (p.events() or ())):
+                    mism = True
+                elif p.kind == "return":
+                    reached.add("<returns without dispatching>")
+        except explore.ExploreError as e:
+            r2c.violation(meth, "dispatch_send cannot be evaluated for %s: %s" % (ty, e))
+            continue
+        if reached == {meth} and mism:
+            r2c.ok(meth, {"type": ty.replace("mqtt::packet::", ""), "reaches": meth})
         else:
-            r2c.violation(meth, "dispatch_send reaches %s under %s, expected exactly %s" % (meth, [sorted(x) for x in sel.get(meth, [])], sorted(want)))
+            r2c.violation(meth, "dispatch_send::<%s> reaches %s (version-mismatch refusal present: %s), expected exactly %s" % (
+                ty.replace("mqtt::packet::", ""), sorted(reached), mism, meth))
 
     # ------------------------------------------------------------------ R3 / R4
     # ------------------------------------------------------------------ R2v: compile-time version table
